@@ -63,8 +63,9 @@ def eval_pair(n, rows, gid, exists=None):
                 f"find_local_clifford_layer modified its arguments ({labels}, graph {gid})", rp))
     if exists is None:
         exists = layer_exists(n, rows, adj)
-    out.append(("C16.ground.none_iff_no_layer", (As is None) == (not exists), f"exist:{key}",
-                f"{labels} vs graph {gid}: search returned {'None' if As is None else 'a layer'}, brute force over 6^{n} layers says a layer {'exists' if exists else 'does not exist'}", rp))
+    if exists != "skip":          # "skip": existence not known for this pair (no brute force); only the soundness clauses are evaluated
+        out.append(("C16.ground.none_iff_no_layer", (As is None) == (not exists), f"exist:{key}",
+                    f"{labels} vs graph {gid}: search returned {'None' if As is None else 'a layer'}, brute force over 6^{n} layers says a layer {'exists' if exists else 'does not exist'}", rp))
     if As is not None:
         ok = len(As) == 4 and all(a.shape == (n, n) for a in As)
         blocks = []
@@ -108,6 +109,28 @@ def self_solution_count(n, adj):
             if cnt > 1:
                 break
     return cnt
+
+
+def target_graph_job(args):
+    n, lo, hi, seed = args
+    rnd = random.Random(seed * 1000003 + n * 7919 + lo)
+    out = []
+    keep = ("C16.ground.none_iff_no_layer", "C16.ground.noraise", "C16.ground.layer_has_effect", "C16.ground.layer_is_local_clifford", "C16.ground.args_unmodified")
+    for gid in range(lo, hi):
+        adj = G.adj_from_id(n, gid)
+        rows0 = [(x, z) for x, z, _ in G.graph_state_gens(n, adj)]
+        rows = G.apply_layer_unsigned(n, rows0, [rnd.randrange(6) for _ in range(n)])
+        res = [r for r in eval_pair(n, rows, gid, True) if r[0] in keep]
+        edges = [(i, j) for i in range(n) for j in range(i + 1, n) if (adj[i] >> j) & 1]
+        if edges:
+            i, j = rnd.choice(edges)
+            adj2 = list(adj)
+            adj2[i] ^= 1 << j
+            adj2[j] ^= 1 << i
+            rows2 = [(x, z) for x, z, _ in G.graph_state_gens(n, tuple(adj2))]
+            res += [r for r in eval_pair(n, rows2, gid, "skip" if n >= 5 else None) if r[0] in keep]
+        out += [(f.replace("C16.ground.", "C16.ground.every_target_graph."), ok, key, what, rp) for f, ok, key, what, rp in res]
+    return out
 
 
 def rigid_graphs(n):
@@ -244,6 +267,24 @@ def run(ctx: core.Ctx):
             ctx.record(famk, PROVED if ok else REFUTED, rp if famk.total < 2 else None)
             if not ok:
                 ctx.violate(famk, key, what, rp)
+    # the GRAPH argument is an input dimension of its own: every labelled graph on 2..6 vertices as the target, (a) with a seeded local-Clifford image of its own graph
+    # state (a layer exists: completeness and soundness) and (b) with the graph state of the same graph minus one edge (existence unknown: soundness of whatever is returned)
+    tj = []
+    for n in range(2, 7):
+        tot = 1 << (n * (n - 1) // 2)
+        step = 256
+        tj += [(n, lo, min(tot, lo + step), ctx.seed) for lo in range(0, tot, step)]
+    famt = {}
+    for res in core.pmap(target_graph_job, tj, chunks=1):
+        for famname, ok, key, what, rp in res:
+            fam = famt.get(famname)
+            if fam is None:
+                fam = famt[famname] = ctx.family(famname, GROUND, "native+oracle", "every labelled graph as the target of the search")
+                fam.exhaustive = True
+                fam.domain = "ALL labelled graphs on 2..6 vertices (33 865) x {own graph state under a seeded local-Clifford layer, graph state of the graph minus one edge}"
+            ctx.record(fam, PROVED if ok else REFUTED, rp if fam.total < 2 else None)
+            if not ok:
+                ctx.violate(fam, key, what, rp)
     # classes without local symmetry: each of the 6^n members has exactly one layer onto the graph
     rj, rtags = [], []
     rnd = random.Random(ctx.seed + 161)
